@@ -22,18 +22,19 @@ N == Len(Tr)
 VARIABLES l, st, viol
 vars == <<l, st, viol>>
 
-NoFrame == [n |-> 0, cause |-> "", kind |-> "", i |-> "", trig |-> {}, ackedX |-> {}, sn |-> 0, mid |-> "",
+NoFrame == [n |-> 0, cause |-> "", kind |-> "", action |-> "", i |-> "", trig |-> {}, ackedX |-> {}, sn |-> 0, mid |-> "",
             termX |-> {}, nfailed |-> 0, failedNow |-> {}, late |-> {}, retrypub |-> FALSE, retrysib |-> FALSE]
 
 NewEx == [notes |-> <<>>, hasrec |-> FALSE, rec |-> <<>>, recstable |-> FALSE, hist |-> <<>>,
-          lastnote |-> <<>>, pendingNote |-> FALSE, sm |-> ""]
+          lastnote |-> <<>>, pendingNote |-> FALSE, sm |-> "", home |-> ""]
 
 NoEv == [exec |-> "", stack |-> <<>>, state |-> "", sn |-> 0, stype |-> ""]
 
 Fresh(tid) ==
     [tid |-> tid, b |-> EmptyBroker, msg |-> <<>>, ev |-> <<>>, fr |-> NoFrame, ex |-> <<>>,
      timers |-> {}, rpcs |-> {}, smtype |-> <<>>, smmc |-> <<>>, store |-> "file", crashed |-> FALSE,
-     launched |-> {}, failedIDs |-> {}, folen |-> <<>>, foparent |-> <<>>, taintX |-> <<>>]
+     launched |-> {}, failedIDs |-> {}, folen |-> <<>>, foparent |-> <<>>, taintX |-> <<>>,
+     evprefix |-> "asl_workflow_events", replyprefix |-> "asl_workflow_reply_to", qtype |-> "classic"]
 
 Init == l = 1 /\ st = Fresh(0) /\ viol = <<>>
 
@@ -91,10 +92,13 @@ ActiveIdx(s, id) == {p[2] : p \in {p \in ActivePairs(s) : p[1] = id}}
 (* ---- one step per kind: returns [s |-> new state, f |-> failures] -------- *)
 R(s, f) == [s |-> s, f |-> f]
 
-StepWorld(s, e) == R([Fresh(e.tid) EXCEPT !.store = e.store], <<>>)
+StepWorld(s, e) ==
+    R([Fresh(e.tid) EXCEPT !.store = e.store, !.qtype = e.qtype,
+                           !.evprefix = IF e.qtype = "quorum" THEN "asl_workflow_events-qq" ELSE "asl_workflow_events",
+                           !.replyprefix = IF e.qtype = "quorum" THEN "asl_workflow_reply_to-qq" ELSE "asl_workflow_reply_to"], <<>>)
 
 StepFrame(s, e) ==
-    LET fr == [NoFrame EXCEPT !.n = e.fr, !.cause = e.cause, !.kind = e.kind, !.i = e.i, !.trig = SeqToSet(e.trig),
+    LET fr == [NoFrame EXCEPT !.n = e.fr, !.cause = e.cause, !.kind = e.kind, !.action = e.action, !.i = e.i, !.trig = SeqToSet(e.trig),
                               !.sn = e.sn, !.mid = e.mid]
         (* executions that were already terminal when a frame triggered by one of their events begins *)
         late == {x \in OwnersOf(s, fr.trig) : IsTerminalX(s, x)}
@@ -102,11 +106,22 @@ StepFrame(s, e) ==
     IN CASE e.cause \in {"deliver", "reply"} ->
               LET ok == CanDeliver(s.b, e.q, e.ch, e.tag, e.sn)
                   redok == e.red = (e.sn \in s.b.red)
-              IN R([s EXCEPT !.fr = fr1, !.b = IF ok THEN Deliver(s.b, e.q, e.ch, e.tag, e.sn) ELSE @,
+                  m == IF e.sn \in DOMAIN s.msg THEN s.msg[e.sn] ELSE [kind |-> "", exec |-> "", state |-> "", mid |-> "", corr |-> "", stack |-> <<>>]
+                  x == m.exec
+                  isstart == m.kind = "event" /\ m.state = ""
+                  (* C19: every later event of an execution goes to the instance that took its start event *)
+                  affine == ~(m.kind = "event" /\ ~isstart /\ x # "" /\ Ex(s, x).home # "") \/ Ex(s, x).home = e.i
+                  (* C19: a reply comes back to the instance that sent the request *)
+                  sender == {r.conn : r \in {r \in s.rpcs : r.corr = e.corr}}
+                  replyok == e.cause # "reply" \/ sender = {} \/ e.i \in sender
+                  sh == IF isstart /\ x # "" /\ Ex(s, x).home = "" THEN SetEx(s, x, [Ex(s, x) EXCEPT !.home = e.i]) ELSE s
+              IN R([sh EXCEPT !.fr = fr1, !.b = IF ok THEN Deliver(s.b, e.q, e.ch, e.tag, e.sn) ELSE @,
                              !.rpcs = IF e.cause = "reply"
                                       THEN {IF r.corr = e.corr /\ r.stage = "replied" THEN [r EXCEPT !.stage = "done"] ELSE r : r \in @}
                                       ELSE @],
-                   Chk(ok, "ENV", "CanDeliver") \o Chk(redok, "ENV", "RedeliveredFlag"))
+                   Chk(ok, "ENV", "CanDeliver") \o Chk(redok, "ENV", "RedeliveredFlag")
+                   \o ChkX(affine, "C19", "Affinity", x, [home |-> Ex(s, x).home, got |-> e.i, state |-> m.state])
+                   \o ChkX(replyok, "C19", "RpcAddressing:reply-to-another-instance", x, [sent |-> sender, got |-> e.i]))
          [] e.cause = "wtake" ->
               LET ok == CanDropHead(s.b, e.fn, e.sn)
               IN R([s EXCEPT !.fr = fr1, !.b = IF ok THEN DropHead(s.b, e.fn) ELSE @,
@@ -153,7 +168,7 @@ StepPub(s, e) ==
                         !.msg = Upd(@, e.sn, info),
                         !.ev = IF isev /\ e.mid # "" THEN Upd(@, e.mid, [exec |-> e.exec, stack |-> e.stack, state |-> e.state, sn |-> e.sn, stype |-> e.stype]) ELSE @,
                         !.rpcs = IF e.kind = "rpc" /\ e.routed # <<>>
-                                 THEN @ \cup {[sn |-> e.sn, corr |-> e.corr, base |-> e.corrbase, exec |-> x, stage |-> "queued", fn |-> e.fn]}
+                                 THEN @ \cup {[sn |-> e.sn, corr |-> e.corr, base |-> e.corrbase, exec |-> x, stage |-> "queued", fn |-> e.fn, conn |-> e.conn]}
                                  ELSE @,
                         !.launched = IF launch THEN @ \cup {<<top[1], top[2]>>} ELSE @,
                         !.folen = IF launch /\ e.blen >= 0 THEN Upd(@, top[1], e.blen) ELSE @,
@@ -167,6 +182,14 @@ StepPub(s, e) ==
     IN R(s1,
          Chk(routedok, "ENV", "RoutedToDeclaredQueue")
          \o ChkX(~duprpc, "C04", "NoDuplicateRequest", x, e.corr)
+         (* C19: start events published through the API go to the shared queue; every later event goes to
+            the publishing instance's own queue; a request names that instance's reply queue and a correlation id *)
+         \o ChkX(~(isev /\ e.state = "" /\ s.fr.cause = "api" /\ s.fr.action \in {"StartExecution", "raw-start"}) \/ e.shared,
+                 "C19", "StartOnShared", e.exec, e.key)
+         \o ChkX(~(isev /\ byengine /\ e.state # "") \/ (~e.shared /\ e.key = s.evprefix \o "-" \o e.conn),
+                 "C19", "Affinity:published-to-another-queue", e.exec, e.key)
+         \o ChkX(~(e.kind = "rpc" /\ byengine) \/ (e.corr # "" /\ e.replyto = s.replyprefix \o "-" \o e.conn /\ e.key = e.fn),
+                 "C19", "RpcAddressing", x, [replyto |-> e.replyto, corr |-> e.corr])
          \o ChkX(~(isev /\ byengine /\ e.exec # "" /\ e.exec \in s.fr.ackedX), "C03", "TriggerAckLast:pub", e.exec,
                  [retry |-> e.retry, depth |-> Len(e.stack), trigdepth |-> MaxTrigDepth(s)])
          \o ChkX(~(isev /\ byengine /\ e.exec # "" /\ IsTerminalX(s, e.exec)), "C02", "NoLateEffects:pub", e.exec, e.state)
@@ -194,7 +217,8 @@ StepNote(s, e) ==
         notes1 == Append(ex0.notes, e.status)
         (* a raw start event does not carry its execution ARN: bind it when RUNNING is announced *)
         bind == e.status = "RUNNING" /\ s.fr.cause = "deliver" /\ s.fr.mid # "" /\ Owner(s, s.fr.mid) = ""
-        s1 == [SetEx(s, x, [ex0 EXCEPT !.notes = notes1, !.lastnote = e, !.pendingNote = TRUE, !.sm = e.sm])
+        s1 == [SetEx(s, x, [ex0 EXCEPT !.notes = notes1, !.lastnote = e, !.pendingNote = TRUE, !.sm = e.sm,
+                                       !.home = IF @ = "" /\ e.status = "RUNNING" THEN s.fr.i ELSE @])
                  EXCEPT !.ev = IF bind THEN Upd(@, s.fr.mid, [Ev(s, s.fr.mid) EXCEPT !.exec = x]) ELSE @,
                         !.msg = IF bind /\ s.fr.sn \in DOMAIN @ THEN [@ EXCEPT ![s.fr.sn].exec = x] ELSE @,
                         !.fr.termX = IF e.status \in Terminal THEN @ \cup {x} ELSE @]
@@ -306,11 +330,19 @@ StepConnLost(s, e) ==
 McOf(mc, name) == LET j == CHOOSE j \in 1..Len(mc) : mc[j].state = name IN mc[j].n
 
 StepOther(s, e) ==
-    CASE e.k = "qdeclare" -> R([s EXCEPT !.b = DeclareQueue(@, e.q)], <<>>)
+    CASE e.k = "qdeclare" ->
+           (* C19: the engine's queues are durable, shared (not exclusive to a connection), kept, of the configured type *)
+           LET mine == e.q \in {s.evprefix, s.evprefix \o "-" \o e.conn, s.replyprefix \o "-" \o e.conn}
+           IN R([s EXCEPT !.b = DeclareQueue(@, e.q)],
+                ChkX(~mine \/ (e.durable /\ ~e.exclusive /\ ~e.autodelete /\ e.qtype = s.qtype), "C19", "DurableQueuesDeclared", "",
+                     [q |-> e.q, durable |-> e.durable, qtype |-> e.qtype]))
       [] e.k = "qdelete"  -> R([s EXCEPT !.b = DeleteQueue(@, e.q)], <<>>)
       [] e.k = "chopen"   -> R([s EXCEPT !.b = OpenChannel(@, e.ch, e.conn)], <<>>)
       [] e.k = "consume"  -> R([s EXCEPT !.b = Consume(@, e.q, e.ch, e.exclusive, e.prio)],
-                               Chk(CanConsume(s.b, e.q, e.exclusive), "ENV", "CanConsume"))
+                               Chk(CanConsume(s.b, e.q, e.exclusive), "ENV", "CanConsume")
+                               (* C19: the per-instance event queue has one exclusive consumer; the shared queue is open to all *)
+                               \o ChkX(~(e.q = s.evprefix \o "-" \o e.conn) \/ e.exclusive, "C19", "ExclusiveInstanceQueue", "", e.q)
+                               \o ChkX(~(e.q = s.evprefix) \/ ~e.exclusive, "C19", "StartOnShared:shared-queue-exclusive", "", e.q))
       [] e.k = "expire"   -> R([s EXCEPT !.b = IF CanDropHead(@, e.q, e.sn) THEN DropHead(@, e.q) ELSE @],
                                Chk(CanDropHead(s.b, e.q, e.sn), "ENV", "ExpireAtHead"))
       [] e.k = "sm"       -> R([s EXCEPT !.smtype = Upd(@, e.arn, e.smtype),
